@@ -66,14 +66,107 @@ package webserver
 //@   modifies nothing
 //@   ensures first-nonempty: result1 != "" ==> len(result0) + len(result1) + len(result2) == len(pth) - 1
 //@
+//@ extern net/http.Error
+//@   why net/http: writes the status line and a plain-text body; recorded in the ghost integer "status" of the writer
+//@   modifies ghostint("status", w), icall("http.ResponseWriter.Header", w)[*]
+//@   ensures sent: ghostint("status", w) == code
+//@ extern (*net/http.Request).BasicAuth
+//@   why net/http: decodes the Authorization header; no side effects
+//@   modifies nothing
+//@ extern strings.Split
+//@   why documented: slices s into substrings; a new slice, no side effects
+//@   modifies nothing
+//@   fresh
+//@ extern strings.Trim
+//@   why documented: string function
+//@   pure
+//@
+//@ func failAuthentication
+//@   safe
+//@   props C17 C12
+//@   requires nonnil: w != nil
+//@   modifies ghostint("status", w), icall("http.ResponseWriter.Header", w)[*]
+//@   ensures refused: ghostint("status", w) == 401
+//@
+//@ func parseBearerToken
+//@   safe
+//@   props C17 C12
+//@   modifies nothing
+//@   invariant loop 1 range: -1 <= rangeindex && rangeindex < len(auths)
+//@
+//@ func globalAdminMatch
+//@   safe
+//@   props C17 C12
+//@   modifies nothing
+//@   invariant loop 1 range: -1 <= rangeindex && rangeindex < len(perms)
+//@   -- C17: a server administrator is a user of the global configuration whose password matches and whose permissions include "admin"
+//@   assert at call Match this-user: arg_pw == password && has(first(callresult("GetConfiguration", 1)).Users, username)
+//@        && arg_p.Type == first(callresult("GetConfiguration", 1)).Users[username].Password.Type
+//@        && arg_p.Key == first(callresult("GetConfiguration", 1)).Users[username].Password.Key
+//@        && arg_p.Hash == first(callresult("GetConfiguration", 1)).Users[username].Password.Hash
+//@   proves matched: result0 ==> result1 == nil && first(callresult("Match", 1)) && second(callresult("Match", 1)) == nil
+//@   proves has-admin: result0 ==> perms[rangeindex] == "admin" && 0 <= rangeindex && rangeindex < len(perms)
+//@   ensures error-refuses: result1 != nil ==> !result0
+//@
+//@ func checkGlobalAdminToken
+//@   safe
+//@   props C17 C09 C12
+//@   modifies nothing
+//@   -- C09/C17: only a token that is valid for the ROOT scope (which a stateful token covers only if it is a root token that includes subgroups)
+//@   -- and that carries the "admin" permission is a global administrator token
+//@   assert at call Check root-scope: arg_group == "" && arg_host == first(callresult("GetConfiguration", 1)).CanonicalHost
+//@   proves admin-token: result0 ==> result1 == nil && third(callresult("Check", 1)) == nil && call("slices.Contains[[]string string]", second(callresult("Check", 1)), "admin")
+//@   ensures error-refuses: result1 != nil ==> !result0
+//@
+//@ func isAdminOrExplicitPassword
+//@   safe
+//@   props C17 C12
+//@   modifies nothing
+//@   -- C17: the credentials presented are the ones examined, for the group addressed
+//@   assert at call globalAdminMatch presented: arg_username == *creds.Username && arg_password == creds.Password
+//@   assert at call checkGlobalAdminToken presented: arg_tok == creds.Token && groupname == ""
+//@   assert at call GetDescription this-group: arg_name == groupname && groupname != ""
+//@   assert at call GetPermission this-group: arg_groupname == groupname && arg_creds.Token == creds.Token && arg_creds.Password == creds.Password && arg_creds.Username == creds.Username
+//@        && arg_desc == first(callresult("GetDescription", 1))
+//@   -- C17 (the one exception): the current password of the NAMED user of THIS group, and only when a user is named
+//@   assert at call Match explicit: user != "" && arg_pw == creds.Password && has(first(callresult("GetDescription", 1)).Users, user)
+//@        && arg_p.Type == first(callresult("GetDescription", 1)).Users[user].Password.Type
+//@        && arg_p.Key == first(callresult("GetDescription", 1)).Users[user].Password.Key
+//@        && arg_p.Hash == first(callresult("GetDescription", 1)).Users[user].Password.Hash
+//@   -- C17: true only for a server administrator, a global admin token (root scope only), the named user's own password,
+//@   -- or credentials to which the group grants "admin"
+//@   proves sufficient: result ==>
+//@           (creds.Username != nil && first(callresult("globalAdminMatch", 1)) && second(callresult("globalAdminMatch", 1)) == nil)
+//@        || (groupname == "" && creds.Token != "" && first(callresult("checkGlobalAdminToken", 1)) && second(callresult("checkGlobalAdminToken", 1)) == nil)
+//@        || (groupname != "" && second(callresult("GetDescription", 1)) == nil && user != "" && first(callresult("Match", 1)) && second(callresult("Match", 1)) == nil)
+//@        || (groupname != "" && second(callresult("GetDescription", 1)) == nil && third(callresult("GetPermission", 1)) == nil
+//@              && call("slices.Contains[[]string string]", second(callresult("GetPermission", 1)), "admin"))
+//@
 //@ func checkAdmin
-//@   trusted
-//@   why api.go: true only if isAdminOrExplicitPassword(groupname, "", credentials of r); on false a 401 with www-authenticate has been written (not yet verified here)
-//@   modifies *
+//@   safe
+//@   props C17 C12
+//@   requires nonnil: w != nil && r != nil
+//@   modifies ghostint("status", w), icall("http.ResponseWriter.Header", w)[*]
+//@   -- C17: the decision is isAdminOrExplicitPassword's, for this group, with NO user named (so no explicit-password exception),
+//@   -- on the credentials of this request; a refusal has answered 401
+//@   assert at call isAdminOrExplicitPassword this-request: arg_groupname == groupname && arg_user == ""
+//@        && arg_creds.Token == callresult("parseBearerToken", 1)
+//@        && (third(callresult("BasicAuth", 1)) ? arg_creds.Username != nil && *arg_creds.Username == first(callresult("BasicAuth", 1)) && arg_creds.Password == second(callresult("BasicAuth", 1)) : arg_creds.Username == nil)
+//@   proves decided: result == callresult("isAdminOrExplicitPassword", 1)
+//@   ensures refused: !result ==> ghostint("status", w) == 401
+//@   ensures silent: result ==> ghostint("status", w) == old(ghostint("status", w))
+//@
 //@ func checkAdminOrExplicitPassword
-//@   trusted
-//@   why api.go: true only if isAdminOrExplicitPassword(groupname, user, credentials of r); on false a 401 has been written (not yet verified here)
-//@   modifies *
+//@   safe
+//@   props C17 C12
+//@   requires nonnil: w != nil && r != nil
+//@   modifies ghostint("status", w), icall("http.ResponseWriter.Header", w)[*]
+//@   assert at call isAdminOrExplicitPassword this-request: arg_groupname == groupname && arg_user == user
+//@        && arg_creds.Token == callresult("parseBearerToken", 1)
+//@        && (third(callresult("BasicAuth", 1)) ? arg_creds.Username != nil && *arg_creds.Username == first(callresult("BasicAuth", 1)) && arg_creds.Password == second(callresult("BasicAuth", 1)) : arg_creds.Username == nil)
+//@   proves decided: result == callresult("isAdminOrExplicitPassword", 1)
+//@   ensures refused: !result ==> ghostint("status", w) == 401
+//@   ensures silent: result ==> ghostint("status", w) == old(ghostint("status", w))
 //@ func apiCORS
 //@   trusted
 //@   why api.go: adds CORS headers; true exactly for OPTIONS (preflight), in which case only headers were written
